@@ -136,7 +136,7 @@ fn decode_iso_8859_9(bytes: &[u8], out: &mut String) -> Result<(), DataDecodingE
     for ch in bytes.iter().copied() {
         match ch {
             0x20..=0x7E => out.push(ch as char),
-            0xA0..=255 => out.push(ISO_8859_9[(ch - 128) as usize]),
+            0xA0..=255 => out.push(ISO_8859_9[(ch - 0xA0) as usize]),
             _ => return Err(DataDecodingError::CharsetError),
         }
     }
